@@ -7,7 +7,7 @@ from c28_impl import LIST_OPS, DICT_OPS, PYNAME, plain_step, navigate
 
 ID = 'C28'
 LEVEL = 'proof'
-PROPS = ['Props/C28.v', 'Findings/C28.v']
+PROPS = ['Props/C28.v']
 GEN = [('Gen/Mutators.v', c28_scan.generate)]
 TRUSTED = [
     'tools/c28_scan.py: the mutator names of list / dict are derived from the running CPython (every name of dir() is called on samples), the wrapped '
@@ -540,11 +540,10 @@ def replay(ctx, data):
 
 
 LEVEL_TEXT = ('Machine-checked proof (Coq 8.16.1) over a model of Pony\'s tracked Json / array values: for all documents, all paths and all sequences of list / dict '
-              'mutators, reads, commits and re-loads, every reachable container stays a Tracked* instance of the same owner, every wrapped mutator that returns sets '
-              'the write bit, reads change nothing, and the row after commit equals the value the program sees -- on the exact complement of the recorded defects '
-              '(+=, *=, |= through a handle; extend / slice assignment from a non-list iterable that carries containers), which are refuted by witnesses. The table of '
-              'wrapped methods and the list of CPython mutators are regenerated from ormtypes.py and the running interpreter on every run; the coverage theorem is '
-              'computed over them.')
+              'mutators (every mutating method and operator of CPython\'s list and dict, any iterable argument), reads, commits and re-loads, every reachable container stays a '
+              'Tracked* instance of the same owner, every mutator that returns sets the write bit, reads change nothing, and the row after commit equals the value the program '
+              'sees -- unconditionally since fix f0ecc86 (+=, *=, |= and non-list iterables). The table of wrapped methods and the list of CPython mutators are regenerated from '
+              'ormtypes.py and the running interpreter on every run; the coverage theorems are computed over them.')
 LEVEL_NOTE = ('Trusted: Coq kernel + vm_compute; the ast scan of ormtypes.py; the hand-written model, tied to real Pony on SQLite by whole-trace vm_compute comparison '
               '(tracking tag of every container, write bit, stored text). Not modelled: floats / tuples, extended slices, sort(key=), handles to detached containers; '
               'other providers than SQLite.')
